@@ -37,6 +37,10 @@ pub struct Case {
     /// ordinals of reader calls that fail with `ErrorKind::Interrupted` (nothing consumed)
     #[serde(default)]
     pub interrupts: Vec<usize>,
+    /// after this many `read` calls into the `dst`-sized buffer the rest is taken with `read_to_end`
+    /// (0 = one entry point only)
+    #[serde(default)]
+    pub mix: usize,
 }
 
 /// Writer that accepts at most `max` bytes per call
@@ -162,6 +166,7 @@ fn decode_all(
     sched: &[usize],
     dst: usize,
     interrupts: &[usize],
+    mix: usize,
     ctx: &mut Ctx,
 ) -> std::io::Result<Vec<u8>> {
     let reader = SchedReader {
@@ -197,6 +202,16 @@ fn decode_all(
             };
             if n == 0 {
                 break;
+            }
+            if mix > 0 && steps + 1 >= mix {
+                // switch entry points in mid-stream: the rest through read_to_end
+                if n > dst {
+                    return Err(std::io::Error::other("read returned more than buffer"));
+                }
+                out.extend_from_slice(&buf[..n]);
+                decoder.read_to_end(&mut out)?;
+                ctx.feat("decode.read-then-read_to_end");
+                return Ok(out);
             }
             if n > dst {
                 return Err(std::io::Error::other("read returned more than buffer"));
@@ -344,6 +359,7 @@ impl Prop for C14 {
             flushes,
             inner_max,
             interrupts,
+            mix: if dst != 0 && rng.chance(1, 4) { rng.range(1, 4) } else { 0 },
         }
     }
 
@@ -405,7 +421,7 @@ impl Prop for C14 {
                 ctx.feat(&format!("enc.len%3={}", case.data.len() % 3));
                 ctx.feat_if(case.writes.len() > 1, "enc.multi-write");
                 // decode the *reference* text so a wrong encoder cannot mask a wrong decoder
-                let back = decode_all(&expected, &case.sched, case.dst, &case.interrupts, ctx).map_err(|e| {
+                let back = decode_all(&expected, &case.sched, case.dst, &case.interrupts, case.mix, ctx).map_err(|e| {
                     Fail::new(
                         "dec-error-on-valid",
                         format!(
@@ -448,7 +464,7 @@ impl Prop for C14 {
                 text.truncate(text.len() - cut);
                 debug_assert!(text.len() % 4 != 0);
                 ctx.feat("dec.truncated");
-                match decode_all(&text, &case.sched, case.dst, &case.interrupts, ctx) {
+                match decode_all(&text, &case.sched, case.dst, &case.interrupts, case.mix, ctx) {
                     Err(_) => Ok(()),
                     Ok(out) => fail!(
                         "dec-truncated-accepted",
@@ -463,7 +479,7 @@ impl Prop for C14 {
             Mode::Garbage => {
                 ctx.feat("dec.garbage");
                 // totality only: Ok or Err, termination bounded inside decode_all
-                match decode_all(&case.data, &case.sched, case.dst, &case.interrupts, ctx) {
+                match decode_all(&case.data, &case.sched, case.dst, &case.interrupts, case.mix, ctx) {
                     Ok(out) => {
                         ensure!(
                             out.len() <= case.data.len() / 4 * 3 + 3,
@@ -564,6 +580,7 @@ impl Prop for C14 {
             "flushes": &case.flushes[..case.flushes.len().min(10)],
             "inner_max": case.inner_max,
             "interrupts": &case.interrupts[..case.interrupts.len().min(10)],
+            "mix": case.mix,
             "mode": format!("{:?}", case.mode),
         })
     }
